@@ -4,7 +4,9 @@ mod c01;
 mod c02;
 mod c03;
 mod c04;
+mod c05;
 mod c06;
+mod c09;
 mod c14;
 mod classify;
 mod engine;
@@ -54,7 +56,9 @@ fn main() {
         "C02" => dispatch(&c02::C02, mode, &rest),
         "C03" => dispatch(&c03::C03, mode, &rest),
         "C04" => dispatch(&c04::C04, mode, &rest),
+        "C05" => dispatch(&c05::C05, mode, &rest),
         "C06" => dispatch(&c06::C06, mode, &rest),
+        "C09" => dispatch(&c09::C09, mode, &rest),
         "C14" => dispatch(&c14::C14, mode, &rest),
         _ => {
             eprintln!("unknown property {id}");
